@@ -20,7 +20,7 @@ CLAIM = dict(
          'values are recomputed exactly by TLC as split numbers H + L/2^F; file round trips into meshes that hold other data on another grid with equally '
          'many, fewer and more nodes, checked through every accessor; non-uniform grids (4..12 nodes, 1-D and both directions of 2-D) whose cell widths have '
          'uniform-looking summary statistics (first = last = mean, first = last, first = mean, palindromic, permuted multiset, two alternating widths, one odd cell); grids with WIDE cells (16, 64, 1024, 2^20) next to narrow ones (2^-9..1) in every order: interpolation on both '
-         'sides of every node at 2^-12..2^-19 and 1e-6..4e-6 (exact, node-relative, inside narrow cells; units inside wide cells), quadratures exact as split numbers.',
+         'sides of every node at 2^-12..2^-19 and 1e-6..4e-6 (exact, node-relative, inside narrow cells; units inside wide cells), quadratures exact as split numbers; round trips that reuse ONE file name (a longer output - bigger mesh, more variables, more digits - first, then a shorter one over it, and the reverse orders as controls).',
     note='Exact (decided by TLC on integers/rationals): all access paths, interpolation at nodes / mid-cells / dyadic points, 1-D and 2-D '
          'trapezium, square_trapezium. Harness measurements judged by guards in Trace_Mesh.tla: interpolation at arbitrary interior points '
          '(>= 1e-6 from every node; double-double reference, guard 4 units of 8 eps max|data|, a-priori bound 2.5 eps max|data|) and the '
@@ -92,6 +92,10 @@ def make_transform(iscale_log2):
             ops += [_interp(xn, x, 0) for x in xn] + [_interp(xn, xn[k] + xn[k + 1], 1) for k in range(len(xn) - 1)]
             ops += [dict(op='trap', var=v) for v in range(nv)]
             ops.append(dict(op='roundtrip', p=n % 7, m0=1 + n % 4))
+            # the same file name again: a longer output (bigger mesh, more variables, more digits) first, then this mesh over it
+            ops.append(dict(op='roundtrip', p=3, m0=len(xn), slot=1, aux=dict(n=len(xn) + 4, nv=4 if nv == 1 else nv, p=10)))
+            ops.append(dict(op='roundtrip', p=10, m0=1, slot=1))
+            ops.append(dict(op='roundtrip', p=2, m0=len(xn), slot=1))
         elif mode in ('data1', 'lin1'):
             out['kind'] = 'm1'
             ops = _sets1(c['vars'], n)
@@ -102,6 +106,8 @@ def make_transform(iscale_log2):
                 ops += [_interp(xn, xn[k] + xn[k + 1], 1) for k in range(len(xn) - 1)]
             ops += [dict(op='trap', var=v) for v in range(nv)]
             ops.append(dict(op='roundtrip', p=n % 5, m0=len(xn)))
+            ops.append(dict(op='roundtrip', p=9, m0=len(xn), slot=1))
+            ops.append(dict(op='roundtrip', p=1 + n % 3, m0=len(xn), slot=1))
         elif mode == 'lin2':
             out['kind'] = 'm2'
             out['ty'] = 'rat' if n % 4 == 3 else 'f64'
@@ -138,7 +144,7 @@ def _count_families(ctx, cases_path, events_path):
     """the special input families must be present: large coordinates, near-node points on both sides, nearly uniform grids, round trips into
     meshes with equally many / fewer / more nodes"""
     cases = {c['cid']: c for c in vlib.read_ndjson(cases_path)}
-    n = dict(near_dyadic=0, near_1e6=0, large_offset_interp=0, fine_trap1=0, fine_trap2=0, fine_sq=0, fine_both=0, rt_same=0, rt_fewer=0, rt_more=0, two_node=0, stat_trap1=0, stat_trap2=0, stat_sq=0, stat_flm_both=0, wide_exact=0, wide_units=0, wide_trap1=0, wide_trap2=0, wide_sq=0)
+    n = dict(near_dyadic=0, near_1e6=0, large_offset_interp=0, fine_trap1=0, fine_trap2=0, fine_sq=0, fine_both=0, rt_same=0, rt_fewer=0, rt_more=0, rt_over_longer=0, rt_over_shorter=0, two_node=0, stat_trap1=0, stat_trap2=0, stat_sq=0, stat_flm_both=0, wide_exact=0, wide_units=0, wide_trap1=0, wide_trap2=0, wide_sq=0)
     for e in vlib.read_ndjson(events_path):
         c = cases[e['cid']]
         if e['op'] in ('interp', 'interp_any') and 'near' in e:
@@ -149,6 +155,8 @@ def _count_families(ctx, cases_path, events_path):
             n['fine_trap1' if e['kind'] == 'm1' else ('fine_sq' if e['op'] == 'sq_trap' else 'fine_trap2')] += 1
             if c.get('kx', 0) > 0 and c.get('ky', 0) > 0:
                 n['fine_both'] += 1
+        if e['op'] == 'roundtrip' and 'slot' in e:
+            n['rt_over_longer' if e['slot'] == 1 else 'rt_over_shorter'] += 1
         if e['op'] == 'roundtrip' and not e['panic']:
             n['rt_same' if e['m0'] == e['nn'] else ('rt_fewer' if e['m0'] < e['nn'] else 'rt_more')] += 1
         if c.get('family') == 'stat' and e['op'] in ('trap', 'sq_trap'):
